@@ -427,16 +427,22 @@ class Wire:
         Wire.prepared = []
     
     def rename(self, newname):
+        if (newname in self.parent._wires.keys()):
+            raise Exception('a wire named {} already exist'.format(newname))
         del self.parent._wires[self.name]
         self.name = newname
         self.parent.appendWire(self)
         
     def reparent(self, newparent):
+        if (self.name in newparent._wires.keys()):
+            raise Exception('a wire named {} already exist'.format(self.name))
         del self.parent._wires[self.name]
         self.parent = newparent
         newparent.appendWire(self)
 
     def reparentAndRename(self, newparent, newname):
+        if (newname in newparent._wires.keys()):
+            raise Exception('a wire named {} already exist'.format(newname))
         del self.parent._wires[self.name]
         self.name = newname
         self.parent = newparent
@@ -547,16 +553,22 @@ class BidirWire(Wire):
         Wire.prepared = []
     
     def rename(self, newname):
+        if (newname in self.parent._wires.keys()):
+            raise Exception('a wire named {} already exist'.format(newname))
         del self.parent._wires[self.name]
         self.name = newname
         self.parent.appendWire(self)
         
     def reparent(self, newparent):
+        if (self.name in newparent._wires.keys()):
+            raise Exception('a wire named {} already exist'.format(self.name))
         del self.parent._wires[self.name]
         self.parent = newparent
         newparent.appendWire(self)
 
     def reparentAndRename(self, newparent, newname):
+        if (newname in newparent._wires.keys()):
+            raise Exception('a wire named {} already exist'.format(newname))
         del self.parent._wires[self.name]
         self.name = newname
         self.parent = newparent
